@@ -301,7 +301,11 @@ def judge(events, outs):
             if out.get("after_altered_same") is False:
                 V.append(_v("C05", f"C05/{fl}/pair/{alt}/earlier-usage-leaks:{_cols(out.get('after_altered_diff') or [])}", ev,
                             out.get("history")))
-            if ca != cb:
+            if out.get("agg") and alt in ("allnan", "absent") and ca == "returned" and cb == "raised:KeyError":
+                # aggregating needs usage to aggregate: with none at all the library produces no aggregated frame
+                # (recorded observation, DESIGN §5); if it does produce one it is compared like any other
+                notes.append({"seq": ev["seq"], "note": "aggregated billing prediction without usage: none produced (KeyError)"})
+            elif ca != cb:
                 V.append(_v("C05", f"C05/{fl}/pair/{alt}/outcome-differs:{ca}|{cb}", ev, out.get("history")))
             elif ca == "returned":
                 if out.get("n_missing"):
